@@ -148,7 +148,7 @@ impl<'a> Digest<'a> {
                         reg_chan.insert(*reg, ch);
                     }
                     if let Some(t) = ev[c.inv..end].iter().find_map(|e| match &e.k {
-                        K::Spawn { tid, parent, name: Some(n) } if *parent == c.tid && n.ends_with("-channeled-subscriber") => Some(*tid),
+                        K::Spawn { tid, parent, .. } if *parent == c.tid => Some(*tid),
                         _ => None,
                     }) {
                         reg_consumer.insert(*reg, t);
@@ -241,6 +241,24 @@ impl<'a> Digest<'a> {
             added_mws: vec![],
             clean_stop: None,
         };
+        // the dispatch queue is the channel a dispatch() call sends on (or finds full)
+        for c in &self.calls {
+            if !matches!(c.op, OpK::Dispatch { store, .. } if store == s) || c.thr >= MW_THR {
+                continue;
+            }
+            let end = c.ret.unwrap_or(self.ev.len());
+            if let Some((ch, _)) = self.ev[c.inv..end].iter().find_map(|e| match &e.k {
+                K::ChSend { chan, .. } | K::ChFull { chan } if e.tid == c.tid => Some((*chan, ())),
+                _ => None,
+            }) {
+                sd.dchan = Some(ch);
+                sd.dchan_cap = self.ev.iter().find_map(|e| match &e.k {
+                    K::ChanNew { chan, cap } if *chan == ch => *cap,
+                    _ => None,
+                });
+                break;
+            }
+        }
         if let Some(v) = bchans {
             // inside build(): first the dispatch queue (bounded), then the pool's job channel
             for (ch, cap) in v {
